@@ -33,11 +33,11 @@ type pipeline struct {
 	// the source of Encrypt (1) or Decrypt (2) fails mid-stream with its own error: alone, the
 	// pipeline reports that error after releasing at most a prefix (an aborted upload or download)
 	srcFail int
-	out    []byte
-	encErr error
-	decErr error
-	endErr error
-	done   bool
+	out     []byte
+	encErr  error
+	decErr  error
+	endErr  error
+	done    bool
 }
 
 var runs int
@@ -50,7 +50,13 @@ func body(s *simrt.Sim, tier string) {
 	// package-level state must not leak from one simulated run into the next (a run has to be a
 	// pure function of its tape): start every run with an empty buffer pool
 	enc.BufPool = sync.Pool{New: enc.BufPool.New}
+	// swarm: every run enables a random subset of the component families, so that the goroutines of
+	// one family meet each other often instead of being diluted among a dozen unrelated ones
+	fam := 1 + s.Choose(15, "families") // bit 0 pipelines (+ pool scribbler), 1 loggers, 2 cron parsers, 3 byte-slice pools
 	np := 2 + s.Choose(3, "pipelines")
+	if fam&1 == 0 {
+		np = 0
+	}
 	var ps []*pipeline
 	var perClient [][]*pipeline
 	for i := 0; i < np; i++ {
@@ -147,7 +153,7 @@ func body(s *simrt.Sim, tier string) {
 			}
 		})
 	}
-	if s.Choose(2, "scribbler") == 0 {
+	if fam&1 != 0 && s.Choose(2, "scribbler") == 0 {
 		names = append(names, "scribbler")
 		s.Go("scribbler", func() {
 			for i, n := 0, 2+s.Choose(6, "scribbles"); i < n; i++ {
@@ -166,7 +172,7 @@ func body(s *simrt.Sim, tier string) {
 	// same whether it is the first or the thousandth of its worker process, also when a tape is re-executed)
 	lname := fmt.Sprintf("verif.c08.%d.", runs) // never seen before in this process, like in a fresh one
 	var logA, logB []logger.Logger
-	for i := 0; i < 2; i++ {
+	for i := 0; i < 2 && fam&2 != 0; i++ {
 		name := fmt.Sprintf("log%d", i)
 		names = append(names, name)
 		s.Go(name, func() {
@@ -178,28 +184,56 @@ func body(s *simrt.Sim, tier string) {
 			}
 		})
 	}
-	// default cron parser
-	specs := []string{"*/5 * * * *", "0 12 * * 1-5", "@hourly", "15,45 3 1 * *"}
+	// cron parsers: the package's default one (ParseStandard) and parsers of the clients' own, with
+	// optional fields (those take the "fill in the default" paths); every result is compared with the
+	// same parse done alone before any concurrency
+	type parseFn func(string) (cron.Schedule, error)
+	type parserKind struct {
+		name  string
+		mk    func() parseFn
+		specs []string
+	}
+	kinds := []parserKind{
+		{"ParseStandard", func() parseFn { return cron.ParseStandard }, []string{"*/5 * * * *", "0 12 * * 1-5", "@hourly", "15,45 3 1 * *"}},
+		{"optional-second parser", func() parseFn {
+			return cron.NewParser(cron.SecondOptional | cron.Minute | cron.Hour | cron.Dom | cron.Month | cron.Dow | cron.Descriptor).Parse
+		}, []string{"*/7 * * * *", "30 */7 * * * *", "1 2 3 4 *", "5 4 3 2 1 *", "@daily"}},
+		{"optional-weekday parser", func() parseFn {
+			return cron.NewParser(cron.Minute | cron.Hour | cron.Dom | cron.Month | cron.DowOptional).Parse
+		}, []string{"10 11 12 1", "20 21 22 2 3", "*/9 * * *"}},
+		{"seconds parser", func() parseFn {
+			return cron.NewParser(cron.Second | cron.Minute | cron.Hour | cron.Dom | cron.Month | cron.Dow).Parse
+		}, []string{"*/11 * * * * *", "1 2 3 4 5 *"}},
+	}
 	t0 := time.Date(2024, 2, 28, 23, 58, 0, 0, time.UTC)
 	solo := map[string]time.Time{}
-	for _, sp := range specs {
-		sc, err := cron.ParseStandard(sp)
-		if err != nil {
-			s.Fail("infra-cron", err.Error())
-			return
+	for _, k := range kinds {
+		parse := k.mk()
+		for _, sp := range k.specs {
+			sc, err := parse(sp)
+			if err != nil {
+				s.Fail("infra-cron", k.name+": "+err.Error())
+				return
+			}
+			solo[k.name+"|"+sp] = sc.Next(t0)
 		}
-		solo[sp] = sc.Next(t0)
 	}
-	for i := 0; i < 2; i++ {
+	for i := 0; i < 3 && fam&4 != 0; i++ {
 		name := fmt.Sprintf("cron%d", i)
 		names = append(names, name)
 		s.Go(name, func() {
+			k := kinds[s.Choose(len(kinds), "parserkind")]
+			parse := k.mk() // this client's own parser object
 			for j := 0; j < 3; j++ {
-				sp := specs[s.Choose(len(specs), "spec")]
+				sp := k.specs[s.Choose(len(k.specs), "spec")]
 				s.Yield("cron")
-				sc, err := cron.ParseStandard(sp)
-				if err != nil || !sc.Next(t0).Equal(solo[sp]) {
-					s.Fail("cron-parser-interference", fmt.Sprintf("ParseStandard(%q) gave %v concurrently, %v alone", sp, err, solo[sp]))
+				sc, err := parse(sp)
+				if err != nil || !sc.Next(t0).Equal(solo[k.name+"|"+sp]) {
+					var got time.Time
+					if err == nil {
+						got = sc.Next(t0)
+					}
+					s.Fail("cron-parser-interference", fmt.Sprintf("%s: Parse(%q) gave err=%v next=%v concurrently, next=%v alone", k.name, sp, err, got, solo[k.name+"|"+sp]))
 				}
 			}
 		})
@@ -207,7 +241,7 @@ func body(s *simrt.Sim, tier string) {
 	// byte-slice pools: one private pool per client, plus one pool shared by all clients (each slice
 	// handed out by Get belongs to one caller until it is Put back)
 	shared := byteslicepool.NewByteSlicePool(8)
-	for i := 0; i < 3; i++ {
+	for i := 0; i < 3 && fam&8 != 0; i++ {
 		i := i
 		name := fmt.Sprintf("bsp%d", i)
 		names = append(names, name)
